@@ -99,6 +99,19 @@ fn decorate_fn(t: &mut Tape, mk: &mut Markers, f: &mut gen::FnSrc, allow_disable
     }
     for p in f.params.iter_mut().skip(1) {
         if t.chance(1, 4) {
+            // the attributed parameter need not be a plain binding: wildcard, `mut`, reference and tuple patterns too
+            if let Some((pat, ty)) = p.clone().split_once(':') {
+                let (pat, ty) = (pat.trim(), ty.trim());
+                if !pat.contains(|c: char| !(c.is_ascii_alphanumeric() || c == '_')) {
+                    *p = match t.weighted(&[4, 1, 1, 1, 1]) {
+                        0 => format!("{pat}: {ty}"),
+                        1 => format!("_: {ty}"),
+                        2 => format!("mut {pat}: {ty}"),
+                        3 => format!("({pat}, _): ({ty}, u8)"),
+                        _ => format!("({pat}, {pat}_b): ({ty}, u8)"),
+                    };
+                }
+            }
             *p = format!("{} {}", mk.fresh(t), p);
         }
     }
